@@ -27,7 +27,11 @@ package main
 // otherwise the reader's verdict is passed on (nil: more input; io.EOF after the final record: main() stops)
 //@   ensures[read-error-passed-on] r3dPubFails == old(r3dPubFails) ==> result == jbrErr
 //@   ensures[one-read] rPos == old(rPos) + len(readLine)
-//@   modifies readLine, pubCount, rPos
+//   (round 5, area I) the call is recorded for the reader loop of main (ghosts: zz_contracts_r5I_verif.go)
+//@   modifies readLine, pubCount, rPos, r5ITReads
+//@   onreturn r5ITReads := r5ITReads + 1
+//@   onreturn r5ITLastErr := result
+//@   onreturn r5ITConsumed := r5ITConsumed + len(readLine)
 //@   loop 0
 //@     invariant[each-publish-exact] pubCount > old(pubCount) ==> lastPubBody == line && lastPubTopic == *topic
 //@     invariant[count] pubCount >= old(pubCount)
